@@ -157,6 +157,7 @@ func (e *engine) doStep(st Step) {
 		Early  bool   `json:"early"`
 		Kind   string `json:"kind"`
 		X      bool   `json:"x"`
+		Fr     bool   `json:"fr"`
 	}
 	_ = json.Unmarshal(st.G, &g)
 	pn := core.Try(func() {
@@ -177,6 +178,8 @@ func (e *engine) doStep(st Step) {
 				e.plan = pl
 				err = e.pg.BeginW(pl)
 			}
+		case "JRmWal":
+			err = e.pg.JRmWal()
 		case "JCreate":
 			err = e.pg.JCreate()
 		case "JSync":
@@ -184,6 +187,8 @@ func (e *engine) doStep(st Step) {
 		case "JPage":
 			if g.X {
 				err = e.pg.JPageBeyond(g.P)
+			} else if g.Fr {
+				err = e.pg.JPageFree(g.P)
 			} else {
 				err = e.pg.JPage(g.P)
 			}
@@ -373,7 +378,9 @@ func (e *engine) checkCapture(st Step, prop string, before, after snap, delta in
 	}
 	if !committing {
 		e.res.Rollbacks++
-		if after.chk != before.chk {
+		// (reused free pages are not restored by SQLite's rollback: then the image, and with it the
+		// checksum, legitimately differs in exactly those pages - the image comparison below covers it)
+		if after.chk != before.chk && !(e.plan.Out == "rb_spill" && len(e.plan.F) > 0) {
 			e.fail(prop, prop+".rollback-leaves-checksum", "rollback-changed-checksum/"+shape, map[string]any{"before": before.chk, "after": after.chk, "plan": e.plan})
 		}
 		if prop == "C03" && delta != 0 {
